@@ -747,6 +747,59 @@ pub fn datalayer_histories(depth: usize) -> EvalResult {
     res
 }
 
+
+/// the same exhaustive exploration, started from populated trees (five, seven and eight leaves, three leaves inserted one by
+/// one): every history of at most `depth` further operations.  BOUNDED like datalayer_histories.
+pub fn datalayer_histories_prefixed(depth: usize) -> EvalResult {
+    use chia_datalayer::MerkleBlob;
+    let mut res = EvalResult { obligations: 0, discharged: 0, failures: vec![], samples: vec![], exhaustive: false };
+    let prev = std::panic::take_hook();
+    std::panic::set_hook(Box::new(|_| {}));
+    const PREFIXES: &[&[usize]] = &[&[17], &[17, 16], &[17, 16, 15], &[0, 1, 2], &[2, 1, 0, 6]];
+    let handles: Vec<_> = PREFIXES.iter().flat_map(|p| (0..HIST_OPS.len()).map(move |first| (*p, first))).map(|(prefix, first)| std::thread::spawn(move || {
+        let mut count = 0u64; let mut fails: Vec<(Vec<usize>, String)> = vec![];
+        let mut b = MerkleBlob::new(vec![]).expect("empty blob");
+        b.check_integrity_on_drop = false;
+        let mut m = HModel::new();
+        let mut path: Vec<usize> = vec![];
+        let mut root = None;
+        // the prefix itself is part of the history: every step of it is checked like any other
+        for i in prefix.iter().chain(std::iter::once(&first)) {
+            path.push(*i);
+            count += 1;
+            match hist_apply(&mut b, HIST_OPS[*i]) {
+                Err(e) => { fails.push((path.clone(), e)); return (count, fails); }
+                Ok(ok) if hist_must_succeed(&m, HIST_OPS[*i]).is_some_and(|w| w != ok) => { fails.push((path.clone(), "the operation's verdict differs from a plain map with unique keys and hashes".into())); return (count, fails); }
+                Ok(ok) => {
+                    if ok { hist_model_apply(&mut m, HIST_OPS[*i]); }
+                    match hist_observe(&b, &m) {
+                        Err(e) => { fails.push((path.clone(), format!("after {} operation: {e}", if ok { "a successful" } else { "a failed" }))); return (count, fails); }
+                        Ok(r) => { if !ok && r != root { fails.push((path.clone(), "a failed operation changed the root hash".into())); return (count, fails); } root = r; }
+                    }
+                }
+            }
+        }
+        hist_dfs(&b, &m, root, &mut path, depth.saturating_sub(1), &mut count, &mut fails);
+        (count, fails)
+    })).collect();
+    for h in handles {
+        let (count, fails) = h.join().unwrap_or((0, vec![(vec![], "worker panicked".to_string())]));
+        res.obligations += count;
+        res.discharged += count - (fails.len() as u64).min(count);
+        for (path, msg) in fails {
+            if res.failures.len() >= 5 { break; }
+            let name = path.iter().map(|i| i.to_string()).collect::<Vec<_>>().join("-");
+            res.failures.push(json!({"id": format!("datalayer_histories/{name}"), "function": "MerkleBlob",
+                "message": format!("history [{}]: {msg}", hist_describe(&path)),
+                "clause": "content == plain map, integrity passes, failed op leaves it unchanged, reload equivalent, root and proofs agree",
+                "cex": {"unit": "eval", "function": "datalayer_histories", "input": {"history": path}}}));
+        }
+    }
+    std::panic::set_hook(prev);
+    res.samples.push(json!({"obligation": format!("all {} steps of the histories of length <= {depth} over {} operations started from {} populated trees: observable state == plain map after every step", res.obligations, HIST_OPS.len(), PREFIXES.len()), "backend": "native-bounded"}));
+    res
+}
+
 pub fn replay_histories(input: &Value) -> (bool, String) {
     use chia_datalayer::MerkleBlob;
     let path: Vec<usize> = input["history"].as_array().map(|a| a.iter().filter_map(|v| v.as_u64().map(|x| x as usize)).collect()).unwrap_or_default();
@@ -816,12 +869,15 @@ fn sg_text(op: u16, msg: &[u8], coin: &chia_protocol::Coin, k: &chia_consensus::
     t
 }
 
-fn sg_case(op: u16, amount: u64, count: usize, spends_n: usize) -> Vec<(String, bool, bool, bool, bool, bool)> {
+fn sg_case(op: u16, amount: u64, count: usize, spends_n: usize, fork: u8) -> Vec<(String, bool, bool, bool, bool, bool)> {
     use chia_bls::{sign, BlsCache, SecretKey, Signature};
     use chia_consensus::consensus_constants::TEST_CONSTANTS;
-    use chia_consensus::flags::MEMPOOL_MODE;
+    use chia_consensus::flags::MEMPOOL_MODE as MM;
     use chia_consensus::run_block_generator::run_block_generator2;
     use chia_consensus::solution_generator::solution_generator;
+    // fork: 0 = the mempool flag set as is; 1 = with the hard-fork flag COST_CONDITIONS (signature collection must not depend on it)
+    #[allow(non_snake_case)]
+    let MEMPOOL_MODE = if fork == 1 { MM | chia_consensus::flags::ConsensusFlags::COST_CONDITIONS } else { MM };
     use chia_consensus::spendbundle_validation::validate_clvm_and_signature;
     use chia_protocol::{Coin, CoinSpend, Program, SpendBundle};
     let sk = SecretKey::from_seed(&[7; 32]);
@@ -863,23 +919,99 @@ fn sg_case(op: u16, amount: u64, count: usize, spends_n: usize) -> Vec<(String, 
         let mempool = validate_clvm_and_signature(&bundle, TEST_CONSTANTS.max_block_cost_clvm, &TEST_CONSTANTS, MEMPOOL_MODE).is_ok();
         out.push((name.to_string(), want, plain, cold, warm, mempool));
     }
+    // the helper that recomputes a spend's final signed messages from the reported (owned) conditions yields exactly the
+    // prescribed texts, list by list
+    {
+        use chia_consensus::flags::ConsensusFlags;
+        use chia_consensus::make_aggsig_final_message::make_aggsig_final_message;
+        use chia_consensus::owned_conditions::OwnedSpendBundleConditions;
+        let generator = solution_generator(spends.iter().map(|s| (s.coin, s.puzzle_reveal.as_ref(), s.solution.as_ref()))).expect("solution_generator");
+        let no_refs: [&[u8]; 0] = [];
+        let ok = match run_block_generator2(&generator, no_refs, TEST_CONSTANTS.max_block_cost_clvm, MEMPOOL_MODE | ConsensusFlags::DONT_VALIDATE_SIGNATURE, &Signature::default(), None, &TEST_CONSTANTS) {
+            Err(_) => false,
+            Ok((a, conds)) => {
+                let owned = OwnedSpendBundleConditions::from(&a, conds);
+                let mut got: Vec<Vec<u8>> = vec![];
+                for sp in &owned.spends {
+                    for (code, lst) in [(50u16, &sp.agg_sig_me), (43, &sp.agg_sig_parent), (44, &sp.agg_sig_puzzle), (45, &sp.agg_sig_amount),
+                                        (46, &sp.agg_sig_puzzle_amount), (47, &sp.agg_sig_parent_amount), (48, &sp.agg_sig_parent_puzzle)] {
+                        for (_, m) in lst.iter() { let mut t = m.as_ref().to_vec(); make_aggsig_final_message(code, &mut t, sp, &TEST_CONSTANTS); got.push(t); }
+                    }
+                }
+                for (_, m) in &owned.agg_sig_unsafe { got.push(m.as_ref().to_vec()); }
+                let mut want = texts.clone();
+                got.sort(); want.sort();
+                got == want
+            }
+        };
+        out.push(("owned-recompute".to_string(), true, ok, ok, ok, ok));
+    }
     out
+}
+
+/// an AGG_SIG_ME condition whose key lies outside the G1 subgroup (a valid key shifted by a cofactor point), with the
+/// signature the valid key's owner can produce for it: a malformed key is refused on every path
+fn sg_bad_key_case() -> Vec<(String, bool, bool, bool, bool, bool)> {
+    use chia_bls::{sign_raw, BlsCache, PublicKey, SecretKey};
+    use chia_consensus::consensus_constants::TEST_CONSTANTS;
+    use chia_consensus::flags::MEMPOOL_MODE;
+    use chia_consensus::run_block_generator::run_block_generator2;
+    use chia_consensus::solution_generator::solution_generator;
+    use chia_consensus::spendbundle_validation::validate_clvm_and_signature;
+    use chia_protocol::{Coin, CoinSpend, Program, SpendBundle};
+    const R_MINUS_1: [u8; 32] = [0x73, 0xed, 0xa7, 0x53, 0x29, 0x9d, 0x7d, 0x48, 0x33, 0x39, 0xd8, 0x08, 0x09, 0xa1, 0xd8, 0x05,
+        0x53, 0xbd, 0xa4, 0x02, 0xff, 0xfe, 0x5b, 0xfe, 0xff, 0xff, 0xff, 0xff, 0x00, 0x00, 0x00, 0x00];
+    let mut torsion: Option<PublicKey> = None;
+    for i in 0..=255u8 {
+        let mut b = [0u8; 48];
+        b[0] = 0x80; b[47] = i;
+        let Ok(p) = PublicKey::from_bytes_unchecked(&b) else { continue; };
+        if p.is_valid() { continue; }
+        let mut t = p;
+        t.scalar_multiply(&R_MINUS_1);
+        t += &p;
+        if !t.is_inf() && !t.is_valid() { torsion = Some(t); break; }
+    }
+    let Some(t) = torsion else { return vec![]; };
+    let sk = SecretKey::from_seed(&[7; 32]);
+    let mut bad = sk.public_key();
+    bad += &t;
+    let msg: &[u8] = b"hello";
+    let puzzle = [1u8];
+    let ph = clvm_utils::tree_hash_atom(&puzzle).to_bytes();
+    let coin = Coin::new([0x44; 32].into(), ph.into(), 1000);
+    let solution = [[0xff, 0xff, 50u8, 0xff, 0xb0].as_slice(), bad.to_bytes().as_slice(), [0xff, 0x85].as_slice(), msg, [0x80, 0x80].as_slice()].concat();
+    let spend = CoinSpend::new(coin, Program::new(puzzle.as_slice().into()), solution.into());
+    let text = sg_text(50, msg, &coin, &TEST_CONSTANTS);
+    let sig = sign_raw(&sk, [bad.to_bytes().as_slice(), text.as_slice()].concat());
+    let generator = solution_generator([(spend.coin, spend.puzzle_reveal.as_ref(), spend.solution.as_ref())]).expect("solution_generator");
+    let no_refs: [&[u8]; 0] = [];
+    let block = |cache: Option<&BlsCache>| run_block_generator2(&generator, no_refs, TEST_CONSTANTS.max_block_cost_clvm, MEMPOOL_MODE, &sig, cache, &TEST_CONSTANTS).is_ok();
+    let plain = block(None);
+    let cache = BlsCache::default();
+    let cold = block(Some(&cache));
+    let warm = block(Some(&cache));
+    let bundle = SpendBundle { coin_spends: vec![spend], aggregated_signature: sig.clone() };
+    let mempool = validate_clvm_and_signature(&bundle, TEST_CONSTANTS.max_block_cost_clvm, &TEST_CONSTANTS, MEMPOOL_MODE).is_ok();
+    vec![("off-subgroup-key".to_string(), false, plain, cold, warm, mempool)]
 }
 
 const SG_AMOUNTS: &[u64] = &[0, 1, 0x7f, 0x80, 0xff, 0x100, 0x7fff, 0x8000, 0xffff, 0x1_0000, 0x7f_ffff, 0x80_0000, 0x7fff_ffff, 0x8000_0000,
     0x7f_ffff_ffff, 0x80_0000_0000, 0x7fff_ffff_ffff, 0x8000_0000_0000, 0x7f_ffff_ffff_ffff, 0x80_0000_0000_0000,
     0x7fff_ffff_ffff_ffff, 0x8000_0000_0000_0000, u64::MAX];
 
-fn sg_shapes() -> Vec<(u16, u64, usize, usize)> {
+fn sg_shapes() -> Vec<(u16, u64, usize, usize, u8)> {
     let mut v = vec![];
     for op in 43u16..=50 {
         let amount_sensitive = matches!(op, 45 | 46 | 47 | 50);
         for (i, amt) in SG_AMOUNTS.iter().enumerate() {
             if !amount_sensitive && i != 1 && i != 15 { continue; }
-            v.push((op, *amt, 1, 1));
+            v.push((op, *amt, 1, 1, 0));
         }
-        v.push((op, 1_000_000_000, 2, 1));   // the same condition twice in one spend
-        v.push((op, 1_000_000_000, 1, 2));   // the same (key, message) asked for by two coins
+        v.push((op, 1_000_000_000, 2, 1, 0));   // the same condition twice in one spend
+        v.push((op, 1_000_000_000, 1, 2, 0));   // the same (key, message) asked for by two coins
+        v.push((op, 1, 1, 1, 1));               // under the hard-fork flag set
+        v.push((op, 1_000_000_000, 2, 2, 1));
     }
     v
 }
@@ -888,20 +1020,29 @@ pub fn sig_paths_ground() -> EvalResult {
     let mut res = EvalResult { obligations: 0, discharged: 0, failures: vec![], samples: vec![], exhaustive: true };
     let shapes = sg_shapes();
     let handles: Vec<_> = shapes.chunks((shapes.len() + 15) / 16).map(|c| { let c = c.to_vec(); std::thread::spawn(move || {
-        c.into_iter().map(|(op, amt, count, n)| ((op, amt, count, n), sg_case(op, amt, count, n))).collect::<Vec<_>>()
+        c.into_iter().map(|(op, amt, count, n, fork)| ((op, amt, count, n, fork), sg_case(op, amt, count, n, fork))).collect::<Vec<_>>()
     }) }).collect();
     for h in handles {
-        for ((op, amt, count, n), rows) in h.join().unwrap_or_default() {
+        for ((op, amt, count, n, fork), rows) in h.join().unwrap_or_default() {
             for (name, want, plain, cold, warm, mempool) in rows {
                 res.obligations += 1;
                 if plain == want && cold == want && warm == want && mempool == want { res.discharged += 1; }
                 else if res.failures.len() < 6 {
-                    res.failures.push(json!({"id": format!("sig_paths_ground/op{op}-amount{amt:#x}-x{count}-spends{n}-{name}"), "function": "validate_signature / validate_clvm_and_signature",
+                    res.failures.push(json!({"id": format!("sig_paths_ground/op{op}-amount{amt:#x}-x{count}-spends{n}{}-{name}", if fork == 1 { "-cost-conditions" } else { "" }), "function": "validate_signature / validate_clvm_and_signature",
                         "message": format!("AGG_SIG opcode {op}, coin amount {amt:#x}, {count} condition(s) in each of {n} spend(s), signature '{name}': required verdict {want}; block no-cache {plain}, cold cache {cold}, warm cache {warm}, mempool {mempool}"),
                         "clause": "all paths accept exactly the aggregate signature over message ‖ attributes(op) ‖ domain(op), once per occurrence",
-                        "cex": {"unit": "eval", "function": "sig_paths_ground", "input": {"op": op, "amount": amt, "count": count, "spends": n, "sig": name}}}));
+                        "cex": {"unit": "eval", "function": "sig_paths_ground", "input": {"op": op, "amount": amt, "count": count, "spends": n, "sig": name, "fork": fork}}}));
                 }
             }
+        }
+    }
+    for (name, want, plain, cold, warm, mempool) in sg_bad_key_case() {
+        res.obligations += 1;
+        if plain == want && cold == want && warm == want && mempool == want { res.discharged += 1; } else if res.failures.len() < 6 {
+            res.failures.push(json!({"id": format!("sig_paths_ground/{name}"), "function": "to_key / validate_signature / validate_clvm_and_signature",
+                "message": format!("AGG_SIG_ME with a key outside the subgroup: required verdict {want}; block no-cache {plain}, cold cache {cold}, warm cache {warm}, mempool {mempool}"),
+                "clause": "a malformed key is rejected on every path",
+                "cex": {"unit": "eval", "function": "sig_paths_ground", "input": {"op": 0, "amount": 0, "count": 0, "spends": 0, "sig": name, "fork": 0}}}));
         }
     }
     res.samples.push(json!({"obligation": format!("{} ground verdicts: 8 AGG_SIG opcodes x amounts at every canonical-length boundary x multiplicities x 3 signatures, 4 paths each", res.obligations), "backend": "native-eval"}));
@@ -914,7 +1055,9 @@ pub fn replay_sig_paths(input: &Value) -> (bool, String) {
     let count = input["count"].as_u64().unwrap_or(1) as usize;
     let n = input["spends"].as_u64().unwrap_or(1) as usize;
     let sig = input["sig"].as_str().unwrap_or("full");
-    for (name, want, plain, cold, warm, mempool) in sg_case(op, amt, count, n) {
+    let fork = input["fork"].as_u64().unwrap_or(0) as u8;
+    let rows = if op == 0 { sg_bad_key_case() } else { sg_case(op, amt, count, n, fork) };
+    for (name, want, plain, cold, warm, mempool) in rows {
         if name == sig {
             let bad = !(plain == want && cold == want && warm == want && mempool == want);
             return (bad, format!("opcode {op} amount {amt:#x} x{count} spends {n} sig {name}: required {want}; block {plain}, cold {cold}, warm {warm}, mempool {mempool}"));
@@ -924,6 +1067,9 @@ pub fn replay_sig_paths(input: &Value) -> (bool, String) {
 }
 
 pub fn run(task: &str) -> Option<EvalResult> {
+    if let Some(d) = task.strip_prefix("datalayer_histories_prefixed:") {
+        return Some(datalayer_histories_prefixed(d.parse().unwrap_or(3)));
+    }
     if let Some(d) = task.strip_prefix("datalayer_histories:") {
         return Some(datalayer_histories(d.parse().unwrap_or(3)));
     }
